@@ -253,7 +253,7 @@ def harnesses(tier):
 ORACLES = [
     {'name': 'all arrangements of date/description/amount/location/custom/skip tokens (with spelling variants) through the real parser against a positional '
              'specification; rejection cases; `tally inspect` suggestion round trip on generated CSV headers', 'script': 'C18.py',
-     'bound': 'all permutations of up to 6 tokens from 9 token kinds x spelling variants (case, blanks, sign, format); 60 header arrangements for inspect'},
+     'bound': 'all permutations of up to 6 tokens from 9 token kinds x spelling variants (case, blanks, sign, format); 60 header arrangements for inspect; 15 spellings of template references (format spec, conversion, blanks, auto-numbered, attribute / index access, literal braces)'},
 ]
 TRUSTED_BASE = ['pyvc symbolic executor', 'z3 5.1.0 / cvc5 1.0.3',
                 'the tokenizer regular expression is an uninterpreted function tok(part) (A6): bounded stand-in only', 'str.split / str.strip / str.lower uninterpreted']
